@@ -123,7 +123,7 @@ def analyse(ctx, case, run, S):
         for cname, lid, deps in stage:
             for dname, atom in sorted(deps.items()):
                 asserts, atoms = inj.query(('log', lid), {atom}, universe)
-                rd = dict({'n': n, 'x': x, 'm': m, 'cap': mc['cap'], 'datum': dname, 'rounds': rounds, 'challenge': cname, 'from_used': bool(mc.get('gens_used_first'))}, **brd)
+                rd = dict({'n': n, 'x': x, 'm': m, 'cap': mc['cap'], 'datum': dname, 'rounds': rounds, 'challenge': cname, 'from_used': bool(mc.get('gens_used_first')), 'dup': mc.get('dup_commitments')}, **brd)
                 ctx.solve(S, 'log-injective', '%s%s: challenge %s depends on %s' % (case['name'], tag, cname, dname), asserts, cfg=cfg,
                           key='C04:%s-not-bound' % dname.split(' ')[0].split('_')[0], pred='challenges_unchanged', detail=rd)
         # integer fields: bit length, extension degree, aggregation factor are absorbed as their own 8-byte little-endian encodings, in that order after the generators
@@ -147,7 +147,7 @@ def analyse(ctx, case, run, S):
             want = ('u64var', 'p_%d_%d' % (mi, j)) if p.get('p_sym') else ('lit', int(p['p'] or 0).to_bytes(8, 'little').hex())
             okp = okp and len(pe[j]['pieces']) == 1 and lv.piece_desc(pe[j]['pieces'][0]) == want
         ctx.expect(okp, 'C04:promise-position-not-bound', '%s: the transcript does not hold one promise entry per commitment in order (absent = 0): positions are not bound' % case['name'],
-                   cfg, 'challenges_unchanged', {'n': n, 'x': x, 'm': m, 'cap': mc['cap'], 'datum': 'promise-position', 'rounds': rounds})
+                   cfg, 'challenges_unchanged', {'n': n, 'x': x, 'm': m, 'cap': mc['cap'], 'datum': 'promise-position', 'rounds': rounds, 'dup': mc.get('dup_commitments')})
     if len(ctx.case_samples) < 2:
         ctx.case_samples.append({'scenario': cfg, 'log_of_final_challenge': [str(t)[:120] for t in lv.describe(ids['e'])][:40]})
 
